@@ -215,6 +215,74 @@ theorem C18_mpdClosed_collinear (n : Nat) (c : Cx ℝ) (hc : CNonZero c) (v : Na
 theorem C18_mpdClosed_bounds (n : Nat) (φ : Nat → Cx ℝ) :
     0 ≤ mpdClosed n φ ∧ mpdClosed n φ ≤ Real.pi / 2 := C18_mpd_bounds n φ _ _
 
+/-! ## `SvdMinor` from the defining properties of a singular value decomposition -/
+
+/-- what `np.linalg.svd(np.c_[Re φ, Im φ])` returns, read as the textbook definition:
+    `[Re φ, Im φ] = U[:, :2] · diag(s0, s1) · Vᵀ`, the first two columns of `U` and the columns
+    of `V` orthonormal, `s0 ≥ s1 ≥ 0`  (`n ≥ 2` components; `VT[r, c] = V c r`). -/
+structure SvdFact (n : Nat) (φ : Nat → Cx ℝ) (U : Nat → Nat → ℝ) (s0 s1 : ℝ) (V : Nat → Nat → ℝ) : Prop where
+  re : ∀ k, k < n → (φ k).re = U k 0 * (s0 * V 0 0) + U k 1 * (s1 * V 0 1)
+  im : ∀ k, k < n → (φ k).im = U k 0 * (s0 * V 1 0) + U k 1 * (s1 * V 1 1)
+  u00 : ∑ k ∈ range n, U k 0 * U k 0 = 1
+  u01 : ∑ k ∈ range n, U k 0 * U k 1 = 0
+  u11 : ∑ k ∈ range n, U k 1 * U k 1 = 1
+  v00 : V 0 0 * V 0 0 + V 1 0 * V 1 0 = 1
+  v01 : V 0 0 * V 0 1 + V 1 0 * V 1 1 = 0
+  v11 : V 0 1 * V 0 1 + V 1 1 * V 1 1 = 1
+  s1_nonneg : 0 ≤ s1
+  s_order : s1 ≤ s0
+
+private theorem sum_bilin (n : Nat) (x y : Nat → ℝ) (α β γ δ : ℝ) :
+    ∑ k ∈ range n, (x k * α + y k * β) * (x k * γ + y k * δ)
+      = α * γ * (∑ k ∈ range n, x k * x k) + (α * δ + β * γ) * (∑ k ∈ range n, x k * y k)
+        + β * δ * (∑ k ∈ range n, y k * y k) := by
+  have h : ∀ k ∈ range n, (x k * α + y k * β) * (x k * γ + y k * δ)
+      = α * γ * (x k * x k) + (α * δ + β * γ) * (x k * y k) + β * δ * (y k * y k) :=
+    fun k _ => by ring
+  rw [Finset.sum_congr rfl h, Finset.sum_add_distrib, Finset.sum_add_distrib, ← Finset.mul_sum,
+    ← Finset.mul_sum, ← Finset.mul_sum]
+
+/-- **a singular value decomposition satisfies `SvdMinor`**: `V[:, 1]` is a (unit, hence
+    non-zero) eigenvector of the Gram matrix for its smaller eigenvalue `s1²`.  With
+    `C18_mpd_svd_closed` the only thing assumed about `np.linalg.svd` in the MPD theorems is
+    that it returns a singular value decomposition. -/
+theorem C18_svd_fact_minor (n : Nat) (φ : Nat → Cx ℝ) (U : Nat → Nat → ℝ) (s0 s1 : ℝ)
+    (V : Nat → Nat → ℝ) (h : SvdFact n φ U s0 s1 V) :
+    SvdMinor n φ (V 0 1) (V 1 1) (s1 * s1) ∧ (V 0 1 ≠ 0 ∨ V 1 1 ≠ 0) := by
+  obtain ⟨hre, him, u00, u01, u11, v00, v01, v11, hs1, hs⟩ := h
+  have ha : ∑ k ∈ range n, (φ k).re * (φ k).re
+      = s0 * s0 * (V 0 0 * V 0 0) + s1 * s1 * (V 0 1 * V 0 1) := by
+    rw [Finset.sum_congr rfl fun k hk => by rw [hre k (mem_range.mp hk)], sum_bilin, u00, u01, u11]
+    ring
+  have hb : ∑ k ∈ range n, (φ k).re * (φ k).im
+      = s0 * s0 * (V 0 0 * V 1 0) + s1 * s1 * (V 0 1 * V 1 1) := by
+    rw [Finset.sum_congr rfl fun k hk => by rw [hre k (mem_range.mp hk), him k (mem_range.mp hk)],
+      sum_bilin, u00, u01, u11]
+    ring
+  have hd : ∑ k ∈ range n, (φ k).im * (φ k).im
+      = s0 * s0 * (V 1 0 * V 1 0) + s1 * s1 * (V 1 1 * V 1 1) := by
+    rw [Finset.sum_congr rfl fun k hk => by rw [him k (mem_range.mp hk)], sum_bilin, u00, u01, u11]
+    ring
+  refine ⟨⟨?_, ?_, ?_⟩, ?_⟩
+  · rw [ha, hb]
+    linear_combination (s0 * s0 * V 0 0) * v01 + (s1 * s1 * V 0 1) * v11
+  · rw [hb, hd]
+    linear_combination (s0 * s0 * V 1 0) * v01 + (s1 * s1 * V 1 1) * v11
+  · rw [ha, hd]
+    have h1 : s1 * s1 ≤ s0 * s0 := mul_self_le_mul_self hs1 hs
+    nlinarith [h1, v00, v11]
+  · by_contra hcon
+    simp only [not_or, not_not] at hcon
+    rw [hcon.1, hcon.2] at v11
+    norm_num at v11
+
+/-- **MPD with any singular value decomposition is the closed form** (no exact tie). -/
+theorem C18_mpd_svd_fact_closed (n : Nat) (φ : Nat → Cx ℝ) (U : Nat → Nat → ℝ) (s0 s1 : ℝ)
+    (V : Nat → Nat → ℝ) (h : SvdFact n φ U s0 s1 V) (htie : (gram2 n φ).disc ≠ 0) :
+    mpd n φ (V 0 1) (V 1 1) = mpdClosed n φ :=
+  C18_mpd_svd_closed n φ _ _ _ (C18_svd_fact_minor n φ U s0 s1 V h).1
+    (C18_svd_fact_minor n φ U s0 s1 V h).2 htie
+
 /-! ## MPD is a finite number: the denominator `Σ w[nz]` -/
 
 /-- **the denominator of `gen.MPD` is positive** for a shape with a non-zero component and a
@@ -297,6 +365,17 @@ example : (gram2 2 exE').disc ≠ 0 := by
   simp [Sym2.disc_eq, gram2_a, gram2_b, gram2_d, Finset.sum_range_succ, exE']
 example : SvdMinor 2 exE' 0 1 0 := by
   constructor <;> simp [Finset.sum_range_succ, exE']
+/-- `SvdFact`: the shape `(3, 4i)` = `[[3,0],[0,4]]` = `U·diag(4,3)·Vᵀ` with `U = V =` the swap -/
+example : SvdFact 2 (fun k => if k = 0 then (⟨3, 0⟩ : Cx ℝ) else ⟨0, 4⟩)
+    (fun k r => if k = r then 0 else 1) 4 3 (fun i r => if i = r then 0 else 1) := by
+  refine ⟨?_, ?_, by simp [Finset.sum_range_succ], by simp [Finset.sum_range_succ],
+    by simp [Finset.sum_range_succ], by norm_num, by norm_num, by norm_num, by norm_num, by norm_num⟩
+  · intro k hk
+    have : k = 0 ∨ k = 1 := by omega
+    rcases this with rfl | rfl <;> simp
+  · intro k hk
+    have : k = 0 ∨ k = 1 := by omega
+    rcases this with rfl | rfl <;> simp
 example : NonZero 2 exE' := ⟨0, by decide, Or.inl (by simp [exE'])⟩
 end examples
 
